@@ -159,7 +159,7 @@ _c18 = [
 for n, h, c, f, kw in _c18:
     d = dict(kind="complete", flags="safety", timeout=600, functions=f, contract=c)
     d.update(kw)
-    ob("C18." + n, ["C18"], "chess-bitboard", "kani_verif_c18::" + h, **d)
+    ob("C18." + n, ["C18", "C07"] if n == "pop_unchecked.contract" else ["C18"], "chess-bitboard", "kani_verif_c18::" + h, **d)
 ob("C18.cover", "C18", "chess-bitboard", "kani_verif_c18::c18_cover", kind="cover", flags="safety", timeout=600, contract="vacuity guard")
 ob("C18.negtwin", "C18", "chess-bitboard", "kani_verif_c18::c18_negtwin", kind="negtwin", expect="refuted", flags="safety", timeout=600,
    contract="negated twin of the shift_left clause: must be refuted")
@@ -190,7 +190,7 @@ _c19 = [
 for n, h, c, f, kw in _c19:
     d = dict(kind="complete", flags="safety", timeout=900, functions=f, contract=c)
     d.update(kw)
-    ob("C19." + n, ["C19"], "chess-bitboard", "pos::kani_verif_c19::" + h, **d)
+    ob("C19." + n, ["C19", "C07"] if n in ("iter.file", "iter.rank") else ["C19"], "chess-bitboard", "pos::kani_verif_c19::" + h, **d)
 ob("C19.cover", "C19", "chess-bitboard", "pos::kani_verif_c19::c19_cover", kind="cover", flags="safety", timeout=600, contract="vacuity guard")
 ob("C19.negtwin", "C19", "chess-bitboard", "pos::kani_verif_c19::c19_negtwin", kind="negtwin", expect="refuted", flags="safety", timeout=600, contract="negated twin: must be refuted")
 ob("C19.move_parse", "C19", "chess-movegen", "kani_verif_c19_move::c19_move_parse", kind="complete", flags="safety", timeout=900,
@@ -308,12 +308,9 @@ ob("C06.validate.errors", ["C06"], "chess-movegen", "kani_verif_c06::c06_validat
    functions=["Board::validate"], contract="each error variant is returned only when its clause is violated")
 ob("C06.has_kings", ["C06"], "chess-movegen", "kani_verif_c06::c06_has_kings", kind="complete", flags="full", timeout=900, mem_gb=4,
    functions=["RawBoard::has_kings"], contract="has_kings() == exactly one king of each colour, all placements")
-ob("C06.build", ["C06", "C03"], "chess-movegen", "kani_verif_c06::c06_build", kind="complete", flags="full", timeout=3600, mem_gb=10,
-   functions=["BoardBuilder::build", "Board::validate", "Board::update_pin_info"],
+ob("C06.build", ["C06", "C03"], "chess-movegen", "kani_verif_c06::c06_build", kind="complete", flags="full", timeout=1800, mem_gb=6, stubs=["Board::update_pin_info -> contract stub (C03.pin_info.*)"],
+   functions=["BoardBuilder::build", "Board::validate"],
    contract="build() == Ok(b) only if validate() accepted the builder's board; b has the same position and hash; b.checkers/pinned == spec; Err(e) == validate()'s error")
-ob("C03.pin_info", ["C03", "C06"], "chess-movegen", "kani_verif_c06::c03_pin_info", kind="complete", flags="full", timeout=3600, mem_gb=10,
-   functions=["Board::update_pin_info", "Board::king_sq", "chess_lookup::between (inlined)"],
-   contract="{one king each, <= 16 per side, side not to move not in check} update_pin_info() {checkers == enemy pieces attacking the mover's king; pinned == sole blockers between the king and an enemy slider on that line; no other field modified}; every placement, both colours")
 ob("C06.cover", "C06", "chess-movegen", "kani_verif_c06::c06_cover", kind="cover", flags="full", timeout=1800, mem_gb=8, contract="vacuity guard: accepted boards with all rights / e.p. for either colour / 16+16 pieces exist")
 ob("C06.negtwin", "C06", "chess-movegen", "kani_verif_c06::c06_negtwin", kind="negtwin", expect="refuted", flags="full", timeout=1800, mem_gb=8, contract="negated twin: must be refuted")
 
@@ -331,7 +328,10 @@ _c10 = [
 ]
 for n, h, c, f in _c10:
     _pp = ["C10", "C07"] if n in ("next", "set_mask", "len") else ["C10"]
-    ob("C10." + n + ".cap6", _pp, "chess-movegen", "iter::kani_verif_c10::cap6::" + h, kind="bounded", bound="iterator with <= 6 entries (all 64-bit destination sets, masks, indices, cursor states)", flags="full", timeout=1800, mem_gb=5, functions=f, contract=c)
+    _cap = 3 if n == "len" else 6   # len: equality of two sums of popcounts is the slow query (cap6: 600 s)
+    ob("C10.%s.cap%d" % (n, _cap), _pp, "chess-movegen", "iter::kani_verif_c10::cap%d::" % _cap + h, kind="bounded", bound="iterator with <= %d entries (all 64-bit destination sets, masks, indices, cursor states)" % _cap, flags="full", timeout=1800, mem_gb=5, functions=f, contract=c)
+    if n == "len":
+        ob("C10.len.cap6", ["C10"], "chess-movegen", "iter::kani_verif_c10::cap6::" + h, kind="bounded", bound="iterator with <= 6 entries", tier="thorough", flags="full", timeout=3600, mem_gb=5, functions=f, contract=c)
     ob("C10." + n, _pp, "chess-movegen", "iter::kani_verif_c10::cap18::" + h, kind="complete", tier="thorough", flags="full", timeout=14400, mem_gb=12, functions=f, contract=c + " — up to the real capacity of 18 entries")
 ob("C10.cover", "C10", "chess-movegen", "iter::kani_verif_c10::cap6::c10_cover", kind="cover", flags="full", timeout=2400, mem_gb=8, contract="vacuity guard: 18 entries, mid-promotion cursor, knight promotion yielded, None with entries left")
 ob("C10.negtwin", "C10", "chess-movegen", "iter::kani_verif_c10::cap6::c10_negtwin", kind="negtwin", expect="refuted", flags="full", timeout=2400, mem_gb=8, contract="negated twin of len: must be refuted")
@@ -351,10 +351,11 @@ PROPERTY_META["C10"] = dict(
 # =========================================================================== C04 hash, C03 small
 host("chess-movegen", _MG, "kani_verif_c04", "harness/chess-movegen/c04.rs")
 host("chess-movegen", _MG, "kani_verif_c02", "harness/chess-movegen/c02.rs")
+host("chess-movegen", _MG, "kani_verif_c07", "harness/chess-movegen/c07.rs")
 ob("C04.xor", ["C04", "C02"], "chess-movegen", "kani_verif_c04::c04_xor", kind="complete", flags="full", timeout=1800, mem_gb=6,
    functions=["Board::xor", "RawBoard::xor"], packaging="harness-stated contract; reused at call sites through the hand-instantiated contract stub xor_contract_stub (assert requires / havoc / assume ensures)",
    contract="{|diff| <= 2 (every call site)} Board::xor(color, piece, diff) {colour set and piece set ^= diff, the other six sets unchanged, zobrist ^= keys of diff's squares for (piece, colour), every other field unchanged}")
-ob("C04.read", ["C04"], "chess-movegen", "kani_verif_c04::c04_read", kind="complete", flags="full", timeout=900, mem_gb=4,
+ob("C04.read", ["C04", "C07"], "chess-movegen", "kani_verif_c04::c04_read", kind="complete", flags="full", timeout=900, mem_gb=4,
    functions=["Board::zobrist", "CastleRights::to_index"],
    contract="zobrist() == piece-hash field ^ turn key ^ (e.p. file key if any) ^ castling key; independent of clocks and cached sets")
 ob("C04.eq_hash", ["C04"], "chess-movegen", "kani_verif_c04::c04_eq_hash", kind="complete", flags="full", timeout=1800, mem_gb=6,
@@ -374,7 +375,7 @@ ob("C04.negtwin", "C04", "chess-movegen", "kani_verif_c04::c04_negtwin", kind="n
 # =========================================================================== C03 pin info (foreach-loop proof), state, in_check
 _LK5 = ["chess_lookup::between", "chess_lookup::rook_rays", "chess_lookup::bishop_rays", "chess_lookup::knight_moves", "chess_lookup::pawn_attacks_moves"]
 _STUB_NOTE = "stub_verified: " + ", ".join(_LK5) + " (contracts discharged by C09.*)"
-ob("C03.pin_info.body", ["C03", "C06"], "chess-movegen", "kani_verif_c06::c03_pin_info_body", kind="complete", flags="full", timeout=1500, mem_gb=5, stubs=_LK5 + ["BitBoard::pop -> one-shot abstraction"],
+ob("C03.pin_info.body", ["C03", "C06", "C07"], "chess-movegen", "kani_verif_c06::c03_pin_info_body", kind="complete", flags="full", timeout=1500, mem_gb=5, stubs=_LK5 + ["BitBoard::pop -> one-shot abstraction"],
    functions=["Board::update_pin_info", "Board::king_sq"],
    contract="{one king each} update_pin_info() with the one-shot iterator: the slider loop ranges over exactly pinners_spec; for an ARBITRARY pinner s: checkers = leaper checkers + {s} iff nothing between, pinned = the single blocker; no other field modified")
 ob("C03.pin_lemma", ["C03", "C06"], "chess-movegen", "kani_verif_c06::c03_pin_lemma", kind="complete", flags="full", timeout=1500, mem_gb=4,
@@ -484,11 +485,11 @@ ob("C06.parse_number", ["C06", "C05"], "chess-movegen", _FN + "c06_parse_number"
    contract="ALL byte strings of length <= 6: value of the <= 4 leading digits, exactly those consumed, None iff no leading digit; no overflow")
 ob("C06.parse_small", ["C06", "C05"], "chess-movegen", _FN + "c06_parse_small", kind="complete", flags="full", timeout=900, mem_gb=3, functions=["fen::parse_whitespace", "fen::parse_dash", "fen::parse_castle_rights"],
    contract="ALL byte strings of length <= 5: whitespace run consumed / error iff none; dash; castle letter: consume exactly what their spec says")
-ob("C06.total.4", ["C06", "C07"], "chess-movegen", _FN + "c06_total_4", kind="bounded", bound="all byte strings of length <= 4", flags="full", timeout=3000, mem_gb=14, functions=["fen::parse_fen"],
+ob("C06.total.4", ["C06"], "chess-movegen", _FN + "c06_total_4", kind="bounded", bound="all byte strings of length <= 4", flags="full", timeout=3000, mem_gb=14, functions=["fen::parse_fen"],
    contract="parse_fen returns (no panic / overflow / out-of-bounds) on ALL byte strings of length <= 4")
 ob("C06.total.6", ["C06"], "chess-movegen", _FN + "c06_total_6", kind="bounded", bound="all byte strings of length <= 6", flags="full", timeout=7200, mem_gb=20, tier="thorough", functions=["fen::parse_fen"],
    contract="parse_fen returns on ALL byte strings of length <= 6")
-ob("C06.total.tail", ["C06", "C07"], "chess-movegen", _FN + "c06_total_tail", kind="bounded", bound="valid placement field + ALL byte strings of length <= 7 for the remaining fields", flags="full", timeout=3000, mem_gb=14, functions=["fen::parse_fen", "Board::validate"],
+ob("C06.total.tail", ["C06"], "chess-movegen", _FN + "c06_total_tail", kind="bounded", bound="valid placement field + ALL byte strings of length <= 7 for the remaining fields", flags="full", timeout=3000, mem_gb=14, functions=["fen::parse_fen", "Board::validate"],
    contract="after a concrete valid placement: every byte string of length <= 7: no panic; Ok(b) => placement as in the text and b.validate() is Ok")
 ob("C05.parse_tail", ["C05", "C06"], "chess-movegen", _FN + "c05_parse_tail", kind="bounded", bound="one fixed placement; ALL values of the five trailing fields (2 x 16 x 9 x 10000 x 10000)", flags="full", timeout=3000, mem_gb=14, functions=["fen::parse_fen", "Board::update_pin_info"],
    contract="parse_fen(placement ++ canonical text of (turn, rights, e.p., half, full)) == Ok(b) with exactly these fields, hash field == from-scratch piece hash, cached sets == spec")
@@ -520,6 +521,30 @@ PROPERTY_META["C05"] = dict(
 ob("LEMMA.verus", ["C14", "C04", "C07"], "__verus__", "verus/lemmas.rs", file="verus/lemmas.rs", kind="complete", timeout=600, mem_gb=1,
    functions=["(spec only) (rank,key) order; xor fold; move-list counting"], packaging="Verus lemma file (spec functions only, no executable code)",
    contract="C14: the (rank,key) lexicographic order is a strict total order; C04: xor is commutative/associative/self-inverse, a delta update of a fold equals the fold of the updated key multiset, fold is order-independent; C07: (pawns + 2 e.p. entries) + knights + bishops + rooks + queens + king <= 18 when the side has <= 16 pieces")
+
+# =========================================================================== C07 safety
+ob("C07.rights_range", ["C07"], "chess-movegen", "kani_verif_c07::c07_rights_range", kind="complete", flags="safety", timeout=600, mem_gb=2,
+   functions=["CastleRights::with", "CastleRights::without", "CastleRights::add", "CastleRights::remove", "CastleRights::remove_for_sq", "CastleRights::to_index", "CastleRights::contains_color"],
+   contract="the castling nibble stays < 16 under every public operation (all 16 values x all arguments), so to_index() never reaches unreachable_unchecked; CastleRights::not() (which breaks it) is used only in private constants")
+ob("C07.king_sq", ["C07"], "chess-movegen", "kani_verif_c07::c07_king_sq", kind="complete", flags="safety", timeout=600, mem_gb=3,
+   functions=["Board::king_sq", "BitBoard::pop_unchecked"], contract="{exactly one king of that colour} king_sq(colour) == its square; NonZeroU64::new_unchecked precondition holds")
+ob("C07.ep_capturers", ["C07"], "chess-movegen", "kani_verif_c07::c07_ep_capturers", kind="complete", flags="safety", timeout=600, mem_gb=2,
+   functions=["chess_lookup::ADJACENT_FILES"], contract="(ADJACENT_FILES[f] & rank) has at most two squares: at most two en-passant entries (capacity argument: 16 + 2 <= 18)")
+ob("C07.make_move", ["C07"], "chess-movegen", "kani_verif_c07::c07_make_move_safety", kind="complete", flags="safety", timeout=2400, mem_gb=6, stubs=_MKSTUBS,
+   functions=_MK, contract="safety only, all default checks on: move_unchecked_into on any ACCEPTED position (back-rank pawns allowed) with any pseudo-legal move of any kind: no unchecked-operation precondition violated, no overflow below the 16-bit clock limit, no out-of-range index")
+ob("C07.cover", ["C07"], "chess-movegen", "kani_verif_c07::c07_cover", kind="cover", flags="safety", timeout=1200, mem_gb=4, contract="vacuity guard: accepted positions with a pawn on the last rank and a pseudo-legal move exist")
+PROPERTY_META["C07"] = dict(
+    level="proof",
+    explanation="Every unsafe / panicking site named in the anchors is an automatically generated obligation (Kani default checks ON: pointer validity, overflow, unwrap/index panics, std unsafe-precondition checks, unreachable_unchecked reachability) of a harness whose functional contract is listed under another property: BitBoard::pop_unchecked (C18), enum-iterator unwrap_unchecked (C19), slider table index (C08, thorough tier here), book reads (C17), MoveGen::next pop_unchecked / set_mask raw-pointer compaction (C10), check_mask assert (C01), make-move piece_of_unchecked / king_sq (here, under the weaker 'accepted position' precondition), castling nibble range, e.p. capturer count; the 18-slot capacity follows from the Verus counting lemma plus 'at most one push per loop body'. NOT covered: anything in chess-engine (search counters u8/u16: see DESIGN section 9 F7/F8 — Kani cannot compile functions containing tracing macros; std HashMap) and the release-only get_unchecked reads (proved in range under the debug-profile body).",
+    assumptions=["engine code (ThreeFold u8 counter, depth u16 counter) is outside this check: tool limit (tracing macro ICE, hashbrown); recorded in DESIGN.md section 9, not as a checked finding",
+                 "capacity 18: counting argument over per-type contracts (Verus lemma + at most one push per loop body + <= 2 e.p. capturers), not a single machine-checked obligation",
+                 "parser totality is bounded (C06)",
+                 "release profile replaces checked table reads by get_unchecked at indices proved in range"],
+    level_note="proof per listed site under Kani's debug-profile semantics; engine/search sites not covered (tool limit)",
+)
+for _o in OBLIGATIONS:
+    if _o["name"].startswith("C08.") and "C07" in _o["props"]:
+        _o.setdefault("prop_tiers", {})["C07"] = "thorough"
 
 # properties whose checks are still being brought up are not claimed in MANIFEST.json until they pass on the unchanged tree
 for _p in ("C01", "C05", "C06"):
